@@ -385,6 +385,7 @@ def run_one(d, prog, seed, inject_pause=False, inject_evict=False, pause_rate=0.
     n_events = [0]
     max_running = [0]
     finished = {}
+    finished_checked = set()
     delivered = []
     done_tasks = set()
     done_acts = {}
@@ -412,6 +413,20 @@ def run_one(d, prog, seed, inject_pause=False, inject_evict=False, pause_rate=0.
             elif k in finished and not any(f['signature'].startswith('finished-workflow-changed') for f in fails):
                 fails.append({'property': 'C03', 'signature': 'finished-workflow-changed:state:%s' % ('sub' if w['has_parent'] else 'root'),
                               'what': 'workflow execution %s had finished as %s; after %s it is %s' % (k, finished[k][0], label, w['state'])})
+        # C01: a workflow execution finishes (by itself: these runs issue no stop, the definitions no fail / succeed command)
+        # only when none of its tasks is still IDLE / WAITING / RUNNING / DELAYED / PAUSED - "the tasks that ran with their
+        # final states are the ones the language defines" (a completion check that overlooks a delayed task ends the run early)
+        for k, w in v['wf'].items():
+            if w['state'] in ('SUCCESS', 'ERROR', 'CANCELLED') and k not in finished_checked:
+                finished_checked.add(k)
+                prefix = k + '/' if k == 'R' or '.sub' in k else None
+                if prefix:
+                    left = sorted(t for t, x in v['tasks'].items() if t.startswith(prefix) and t.count('/') == k.count('/') + 1
+                                  and x['state'] not in ('SUCCESS', 'ERROR', 'CANCELLED', 'SKIPPED'))
+                    if left and not any(f['signature'].startswith('workflow-finished-with-unfinished-tasks') for f in fails):
+                        fails.append({'property': 'C01', 'signature': 'workflow-finished-with-unfinished-tasks:%s' % meta['feature'],
+                                      'what': 'workflow execution %s became %s on %s while its tasks %s were not finished' % (
+                                          k, w['state'], label, {t: v['tasks'][t]['state'] for t in left})})
         # C03: a task that reached SUCCESS never changes state again; a completed action execution (result accepted) keeps
         # its state (these runs issue no rerun / skip)
         for k, t in v['tasks'].items():
